@@ -9,7 +9,7 @@ ID = "C14"
 RULE = ("Mode G+M: EVERY configurator with 1..2 rules from a 37-rule menu (incl. defaulted rules whose non-default alternative is a compound package shared with other rules) (cc.Any / cc.Xor with and without default at every position, "
         "pg.Any, pg.Xor, AtMost(k), All, Imply with item/All/Any conditions and item/All/defaulted consequences; explicit and generated rule "
         "ids) x EVERY priority dictionary of the alphabet (0..3 ids, values in {-3..3}\\{0}: ties, several levels, negatives, a rule id, an "
-        "unknown id) -> select(*prios, solver=capture), on the configurator as built and again after StingyConfigurator.from_json(to_json()). oracle: over ALL feasible 0/1 points of the polyhedron the captured objective is "
+        "unknown id) -> select(*prios, solver=capture), on the configurator as built, again after StingyConfigurator.from_json(to_json()), and on its polyhedron after a base64 round trip; the empty and every 8th dictionary also alone in a call of its own; every fourth configurator over items of a subclass of puan.variable; defaults that drag a bundle of >=3 selections; several defaults out of id order. oracle: over ALL feasible 0/1 points of the polyhedron the captured objective is "
         "strictly increasing in the lexicographic key (user levels by descending magnitude with signed counts, then -#selected prio -2 "
         "tags, then -#selected remaining columns) and constant inside a key (= all pairs, by one sort); default_prio_vector is -1 with "
         "-2 exactly at the non-default branch nodes, which are checked against the rule definitions; derived: a feasible top-priority "
